@@ -158,6 +158,16 @@ def _hedge_corrupt(evs, profile):
     return None
 
 
+def _cache_corrupt(evs, profile):
+    out = [dict(e) for e in evs]
+    # a hit returns a response that was never stored for that key
+    for e in out:
+        if e.get('e') == 'poll' and e.get('res') == 'ok' and e.get('nd') == 0 and e.get('ns') == 0:
+            e['val'] = e['val'] + 1000
+            return out
+    return None
+
+
 COMPONENTS = {
     'bulkhead': {
         'spec_files': ['Bulkhead.tla', 'MC_Bulkhead.tla', 'Trace_Bulkhead.tla'],
@@ -258,6 +268,15 @@ COMPONENTS = {
         'random': {'quick': [{'runs': 2000}], 'thorough': [{'runs': 30000}]},
         'corrupt': _hedge_corrupt,
     },
+    'cache': {
+        'spec_files': ['Cache.tla', 'MC_Cache.tla', 'Trace_Cache.tla'],
+        'mc': {'quick': [{'cfg': 'MC_Cache_q.cfg', 'module': 'MC_Cache'}], 'thorough': [{'cfg': 'MC_Cache_q.cfg', 'module': 'MC_Cache'}]},
+        'gen': {'cfg': 'Gen_Cache.cfg', 'module': 'MC_Cache', 'num': {'quick': 400, 'thorough': 5000}, 'depth': 60},
+        'trace_module': 'Trace_Cache', 'trace_cfg_tmpl': 'Trace_Cache.cfg.tmpl',
+        'harness': 'cache',
+        'random': {'quick': [{'runs': 1200}], 'thorough': [{'runs': 15000}]},
+        'corrupt': _cache_corrupt,
+    },
 }
 
 PROPS = {
@@ -277,6 +296,7 @@ PROPS = {
     'C16': {'comp': 'reconnect', 'profile': 'full'},
     'C06': {'comp': 'timelimiter', 'profile': 'full'},
     'C12': {'comp': 'hedge', 'profile': 'full'},
+    'C10': {'comp': 'cache', 'profile': 'full'},
     'C02': {'comp': 'ratelimiter', 'profile': 'ProfC02', 'drift_profile': 'ProfAll'},
     'C15': {'comp': 'ratelimiter', 'profile': 'ProfC15', 'drift_profile': 'ProfAll'},
 }
